@@ -49,6 +49,9 @@ var profiles = map[string]Profile{
 	"transfer": {MinNodes: 3, MaxNodes: 5, Steps: 16, Clients: 4, MaxIDs: 6, DelayProb: 0.05,
 		Ops:    map[string]int{"update": 6, "read": 1, "barrier": 1},
 		Faults: map[string]int{"transfer": 10, "stall": 3, "oneway": 2, "isolate-any": 2, "break": 2, "member": 2, "heal": 2}},
+	"crashy": {MinNodes: 3, MaxNodes: 4, Steps: 16, Clients: 4, MaxIDs: 5, DelayProb: 0.05,
+		Ops: map[string]int{"update": 8, "read": 1, "dirty": 1},
+		Faults: map[string]int{"crash": 12, "crash-vote": 3, "snapshot": 4, "isolate-leader": 2, "stall": 2, "member": 1, "transfer": 1, "restart": 1, "heal": 1}},
 	"everything": {MinNodes: 3, MaxNodes: 5, Steps: 16, Clients: 6, MaxIDs: 6, DelayProb: 0.08,
 		Ops: map[string]int{"update": 8, "read": 2, "dirty": 1, "barrier": 1},
 		Faults: map[string]int{"isolate-leader": 3, "isolate-any": 2, "oneway": 2, "split": 2, "stall": 3, "break": 2,
@@ -280,7 +283,6 @@ func (e *engineA) converged() (bool, string) {
 	}
 	var ldr *Node
 	var ldrInfo raft.Info
-	var maxTerm uint64
 	infos := map[uint64]raft.Info{}
 	for _, n := range live {
 		info, ok := n.info(false)
@@ -288,20 +290,25 @@ func (e *engineA) converged() (bool, string) {
 			return false, fmt.Sprintf("node %d gives no info", n.nid)
 		}
 		infos[n.nid] = info
-		if info.Term > maxTerm {
-			maxTerm = info.Term
-		}
-	}
-	leaders := 0
-	for _, n := range live {
-		info := infos[n.nid]
-		if info.State == raft.Leader && info.Term == maxTerm {
-			leaders++
+		if info.State == raft.Leader && (ldr == nil || info.Term > ldrInfo.Term) {
 			ldr, ldrInfo = n, info
 		}
 	}
-	if leaders != 1 {
-		return false, fmt.Sprintf("%d leaders at term %d", leaders, maxTerm)
+	if ldr == nil {
+		return false, "no leader"
+	}
+	conf := ldrInfo.Configs.Latest
+	// every live member of the leader's configuration follows it (nodes that
+	// are not members, e.g. force-removed ones that keep campaigning, are none
+	// of the cluster's business)
+	for _, n := range live {
+		if _, member := conf.Nodes[n.nid]; !member || n == ldr {
+			continue
+		}
+		info := infos[n.nid]
+		if info.Term != ldrInfo.Term || info.Leader != ldr.nid {
+			return false, fmt.Sprintf("member %d (term %d, leader %d) does not follow leader %d of term %d", n.nid, info.Term, info.Leader, ldr.nid, ldrInfo.Term)
+		}
 	}
 	if !ldrInfo.Configs.IsStable() {
 		return false, "config not stable"
@@ -311,7 +318,6 @@ func (e *engineA) converged() (bool, string) {
 		return false, "fresh update failed: " + r.kind
 	}
 	want := r.pos
-	conf := ldrInfo.Configs.Latest
 	for _, n := range live {
 		if _, member := conf.Nodes[n.nid]; !member {
 			continue
@@ -324,7 +330,7 @@ func (e *engineA) converged() (bool, string) {
 			return false, fmt.Sprintf("node %d has %d of %d", n.nid, rr.readLen, want)
 		}
 	}
-	return true, fmt.Sprintf("leader=%d term=%d len=%d", ldr.nid, maxTerm, want)
+	return true, fmt.Sprintf("leader=%d term=%d len=%d", ldr.nid, ldrInfo.Term, want)
 }
 
 // load ------------------------------------------------------------------------
